@@ -172,6 +172,7 @@ def fresh_arrays(defs, config):
 def gen_history(seed, idx):
     rng = random.Random(f"{seed}:c02:{idx}")
     steps = []
+    cur_ver = {n: BASE_DEFS[n]["version"] for n in BASE_DEFS}
     for _ in range(rng.randint(3, 12)):
         r = rng.random()
         if r < 0.22:
@@ -193,12 +194,26 @@ def gen_history(seed, idx):
                     st["opt"] = own
                     st["value"] = rng.choice(VALUES)
             if st["what"] == "version":
-                st["value"] = f"0.{rng.randint(1, 9)}.{rng.randint(0, 9)}"
+                # small pool: sequences that come back to an earlier version (A -> B -> A') must occur
+                st["value"] = rng.choice(["0.0.1", "0.0.2", "0.1.0"])
             if st["what"] == "cname":
-                st["value"] = f"{p.capitalize()}V{rng.randint(2, 9)}"
+                st["value"] = f"{p.capitalize()}V{rng.randint(2, 4)}"
             if st["what"] == "deps":
                 st["value"] = {"pa": ["ev"], "pb": rng.choice([["pa"], ["pc"]]), "pc": rng.choice([["ev"], ["pa"]]),
                                "pe": rng.choice([["pb", "pc"], ["pb"], ["pc", "pa"]])}[p]
+            # long-lived contexts are only looked at (key_for builds plugins and fills caches) after some of
+            # the steps, so that several mutations can pile up without any plugin build in between
+            st["observe"] = rng.random() < 0.4
+            if st["what"] != "version" and rng.random() < 0.35:
+                # one registration that changes the version AND something else (a new release of the plugin)
+                st["also_version"] = rng.choice(["0.0.1", "0.0.2", "0.1.0"])
+            if st["what"] != "version" and rng.random() < 0.3:
+                # release B then release A' under the version of A, no request in between (A -> B -> A')
+                back = cur_ver[p]
+                other = rng.choice([v for v in ["0.0.1", "0.0.2", "0.1.0", "0.3.0"] if v != back])
+                steps.append({"op": "reregister", "plugin": p, "what": "version", "value": other, "observe": False})
+                st["also_version"] = back
+            cur_ver[p] = st["value"] if st["what"] == "version" else st.get("also_version", cur_ver[p])
             steps.append(st)
         elif r < 0.56:
             steps.append({"op": "new_context", "who": rng.choice([0, 1])})
@@ -294,6 +309,9 @@ def run_history(h):
                     changed = defs[p]["deps"] != s["value"]
                     defs[p]["deps"] = list(s["value"])
                 mutated = True
+                ver_before = defs[p]["version"]
+                if s.get("also_version") is not None:
+                    defs[p]["version"] = s["also_version"]
                 classes = make_classes(defs)
                 regs = [classes[p]] + ([classes["pd"]] if p == "pa" else [])
                 for c in ctx:
@@ -302,6 +320,8 @@ def run_history(h):
                 if p == "pa" and s["what"] == "default":
                     affected = descendants(defs, p)  # the child overrides opt_a, its own lineage drops the parent's option
                 expect_changed = affected if changed else set()
+                if s.get("also_version") is not None and ver_before != s["also_version"]:
+                    expect_changed = expect_changed | descendants(defs, p) | (descendants(defs, "pd") if p == "pa" else set())
             elif op == "new_context":
                 ctx[s["who"]] = ctx[s["who"]].new_context()
             elif op in ("make", "get_array"):
@@ -327,6 +347,8 @@ def run_history(h):
             # key tables after every step
             fresh_keys = key_table(fresh_context(defs, config))
             for k, c in enumerate(ctx):
+                if op == "reregister" and not s.get("observe", True):
+                    continue
                 cnt["key_tables_compared"] = cnt.get("key_tables_compared", 0) + 1
                 kt = key_table(c)
                 if kt != fresh_keys:
